@@ -260,7 +260,7 @@ func genC01(e *emitter, tier string, seed uint64) map[string]interface{} {
 							}
 							for _, thr := range thrs {
 								p := mk(version, typ, verify, npairs, n)
-								roundtripCase(e, p, thr, true, fmt.Sprintf("v%d/%s/len%d", version, typ, classOfLen(n)))
+								roundtripCase(e, p, thr, true, fmt.Sprintf("v%d/%s/len%s", version, typ, classOfLen(n)))
 							}
 						}
 					}
